@@ -202,6 +202,81 @@ Definition fl_parse (s : list Z) : option Z :=
         end
   end.
 
+
+(* ---- f32 Display / to_string ("{}"): the shortest decimal that round-trips (Steele-White /
+   dragon4 free-format, as core::num::flt2dec::strategy::dragon::format_shortest), closest to the
+   value, a tie rounded up, printed without exponent.  Used as [ffmt (-1)]. ---- *)
+Definition is_pow2_mant (m : Z) : bool := m =? 8388608.     (* 2^23: the smallest normal mantissa *)
+
+(* digit generation: r/s is the remaining fraction, mp/mm the distances to the upper/lower boundary *)
+Fixpoint shortest_digits (fuel : nat) (incl : bool) (r s mp mm : Z) (acc : list Z) : list Z :=
+  match fuel with
+  | O => rev acc
+  | S f =>
+      let d := (r * 10) / s in
+      let r' := (r * 10) mod s in
+      let mp' := mp * 10 in
+      let mm' := mm * 10 in
+      let down := if incl then r' <=? mm' else r' <? mm' in
+      let up := if incl then s <=? r' + mp' else s <? r' + mp' in
+      if negb down && negb up then shortest_digits f incl r' s mp' mm' (d :: acc)
+      else if up && (negb down || (s <=? 2 * r')) then rev ((d + 1) :: acc)
+      else rev (d :: acc)
+  end.
+
+(* propagate a carry (a digit 10) leftwards; returns (digits, carried out?) *)
+Fixpoint carry_fix (l : list Z) : list Z * bool :=
+  match l with
+  | [] => ([], false)
+  | d :: r => let '(r', c) := carry_fix r in
+              let d' := if c then d + 1 else d in
+              if d' =? 10 then (0 :: r', true) else (d' :: r', false)
+  end.
+
+(* smallest k with (r + mp) / s < 10^k  (or <= when the boundary is inclusive) *)
+Fixpoint find_k (fuel : nat) (incl : bool) (r s mp : Z) (k : Z) : Z :=
+  match fuel with
+  | O => k
+  | S f =>
+      let hi := r + mp in
+      let p := if 0 <=? k then s * 10 ^ k else s in
+      let h := if 0 <=? k then hi else hi * 10 ^ (- k) in
+      if (if incl then p <=? h else p <? h) then find_k f incl r s mp (k + 1) else k
+  end.
+
+Definition fl_display (z : Z) : list Z :=
+  if fl_is_nan z then [78; 97; 78]
+  else if fl_is_inf z then (if fl_sign z then [45; 105; 110; 102] else [105; 110; 102])
+  else match fl_parts z with
+       | Some (m0, e) =>
+           let sgn := if fl_sign z then [45] else [] in
+           let m := Z.abs m0 in
+           if m =? 0 then sgn ++ [48]
+           else
+             let incl := Z.even m in
+             let p2 := is_pow2_mant m && negb (e =? -149) in
+             (* value = r/s, half-gaps mp/s (up) and mm/s (down) *)
+             let '(r, s, mp, mm) :=
+               if 0 <=? e then
+                 if p2 then (m * 2 ^ e * 4, 4, 2 * 2 ^ e, 2 ^ e) else (m * 2 ^ e * 2, 2, 2 ^ e, 2 ^ e)
+               else
+                 if p2 then (m * 4, 2 ^ (- e) * 4, 2, 1) else (m * 2, 2 ^ (- e) * 2, 1, 1) in
+             let k := find_k 120 incl r s mp (-60) in        (* 10^(k-1) <= value-ish < 10^k *)
+             let '(r, s, mp, mm) := if 0 <=? k then (r, s * 10 ^ k, mp, mm)
+                                    else (r * 10 ^ (- k), s, mp * 10 ^ (- k), mm * 10 ^ (- k)) in
+             let '(ds, c) := carry_fix (shortest_digits 60 incl r s mp mm []) in
+             let ds := if c then 1 :: ds else ds in
+             let k := if c then k + 1 else k in
+             (* digits ds with the decimal point after k digits *)
+             let n := Z.of_nat (length ds) in
+             let chars := map (fun d => 48 + d) ds in
+             sgn ++
+             (if k <=? 0 then [48; 46] ++ repeat 48 (Z.to_nat (- k)) ++ chars
+              else if n <=? k then chars ++ repeat 48 (Z.to_nat (k - n))
+              else firstn (Z.to_nat k) chars ++ [46] ++ skipn (Z.to_nat k) chars)
+       | None => []
+       end.
+
 Fixpoint lookup3 (tab : list (Z * Z * Z)) (fn x : Z) : option Z :=
   match tab with
   | [] => None
@@ -218,7 +293,7 @@ Definition flocq_ops (tab : list (Z * Z * Z)) : FloatOps := {|
   fsqrt := fl_sqrt; fceil := fl_ceil; fround := fl_round; fabs := fl_abs; fneg := fl_neg;
   f_is_nan := fl_is_nan;
   f_is_finite := fun z => negb (fl_is_nan z || fl_is_inf z);
-  ffmt := fl_fmt; fparse := fl_parse;
+  ffmt := fun k z => if k <? 0 then fl_display z else fl_fmt k z; fparse := fl_parse;
   flibm := lookup3 tab;
 |}.
 
